@@ -24,6 +24,7 @@ type Parent struct {
 	Many    []Target  `gorm:"foreignKey:ManyID"`     // has-many
 	Tags    []*Target `gorm:"many2many:parent_tags"` // many-to-many (pointer elements)
 	Toys    []Target  `gorm:"polymorphic:Poly"`      // polymorphic has-many
+	Pet     Target    `gorm:"polymorphic:Solo"`      // polymorphic has-one
 }
 
 type Target struct {
@@ -33,6 +34,8 @@ type Target struct {
 	ManyID   *uint
 	PolyID   uint
 	PolyType string
+	SoloID   uint
+	SoloType string
 }
 
 type Kind int
@@ -44,33 +47,39 @@ const (
 	Many2Many
 	Poly
 	BelongsToVal
+	PolyOne
 	numKinds
 )
 
-var kindName = []string{"has-one", "has-many", "belongs-to", "many2many", "polymorphic", "belongs-to-valuefk"}
-var relName = []string{"One", "Many", "Owner", "Tags", "Toys", "Boss"}
+var kindName = []string{"has-one", "has-many", "belongs-to", "many2many", "polymorphic", "belongs-to-valuefk", "polymorphic-has-one"}
+var relName = []string{"One", "Many", "Owner", "Tags", "Toys", "Boss", "Pet"}
 
 // single: the relation holds at most one link per parent (Append replaces).
-func (k Kind) single() bool    { return k == HasOne || k.belongsTo() }
+func (k Kind) single() bool { return k == HasOne || k == PolyOne || k.belongsTo() }
+
+// polymorphic: the link carries an owner-type column next to the owner key.
+func (k Kind) polymorphic() bool { return k == Poly || k == PolyOne }
+
 func (k Kind) belongsTo() bool { return k == BelongsTo || k == BelongsToVal }
 
 // fkInTarget: the link is a column of the target row, hence a target has at
 // most one parent and deleting the row deletes the link.
-func (k Kind) fkInTarget() bool { return k == HasOne || k == HasMany || k == Poly }
+func (k Kind) fkInTarget() bool { return k == HasOne || k == HasMany || k == Poly || k == PolyOne }
 
 const polyValue = "parents"
 
 var schemaSQL = []string{
 	`CREATE TABLE parents (id integer primary key, name text, owner_id integer, boss_id integer)`,
-	`CREATE TABLE targets (id integer primary key, name text, one_id integer, many_id integer, poly_id integer, poly_type text)`,
+	`CREATE TABLE targets (id integer primary key, name text, one_id integer, many_id integer, poly_id integer, poly_type text, solo_id integer, solo_type text)`,
 	`CREATE TABLE parent_tags (parent_id integer, target_id integer, primary key (parent_id, target_id))`,
 }
 
 // Seed: parents A=1, B=2 (operated in slice mode), C=3 (never operated: the
 // bystander). Targets: 1 linked to A and 2 linked to C through every relation,
 // 3 saved and unlinked, 4 absent (the "new record with a preset key"), 9 a
-// decoy that carries parent A's key under a foreign polymorphic type. New
-// records without key get ids >= 10.
+// decoy that carries parent A's key under a foreign polymorphic type. Row 20 is
+// in no alphabet and only keeps the keys SQLite hands out (max+1) above it: new
+// records without key get ids > 20 and never collide with a symbol.
 const (
 	pA = 1
 	pB = 2
@@ -82,8 +91,8 @@ func seed(e *h.Env) {
 	e.MustExec("DELETE FROM targets")
 	e.MustExec("DELETE FROM parents")
 	e.MustExec("INSERT INTO parents (id,name,owner_id,boss_id) VALUES (1,'A',1,1),(2,'B',NULL,NULL),(3,'C',2,2)")
-	e.MustExec("INSERT INTO targets (id,name,one_id,many_id,poly_id,poly_type) VALUES " +
-		"(1,'t1',1,1,1,'parents'),(2,'t2',3,3,3,'parents'),(3,'t3',NULL,NULL,NULL,''),(9,'decoy',NULL,NULL,1,'other')")
+	e.MustExec("INSERT INTO targets (id,name,one_id,many_id,poly_id,poly_type,solo_id,solo_type) VALUES " +
+		"(1,'t1',1,1,1,'parents',1,'parents'),(2,'t2',3,3,3,'parents',3,'parents'),(3,'t3',NULL,NULL,NULL,'',NULL,''),(9,'t9',NULL,NULL,1,'other',1,'other'),(20,'sentinel',NULL,NULL,NULL,'',NULL,'')")
 	e.MustExec("INSERT INTO parent_tags (parent_id,target_id) VALUES (1,1),(3,2)")
 }
 
@@ -97,6 +106,8 @@ type TRow struct {
 	Many     sql.NullInt64
 	PolyID   sql.NullInt64
 	PolyType sql.NullString
+	SoloID   sql.NullInt64
+	SoloType sql.NullString
 }
 
 type PRow struct {
@@ -137,7 +148,7 @@ func (s *Snap) String() string {
 	}
 	sb.WriteString("\ntargets:")
 	for _, t := range s.Targets {
-		fmt.Fprintf(&sb, " (%d %s one=%s many=%s poly=%s/%s)", t.ID, t.Name, ni(t.One), ni(t.Many), ni(t.PolyID), ns(t.PolyType))
+		fmt.Fprintf(&sb, " (%d %s one=%s many=%s poly=%s/%s solo=%s/%s)", t.ID, t.Name, ni(t.One), ni(t.Many), ni(t.PolyID), ns(t.PolyType), ni(t.SoloID), ns(t.SoloType))
 	}
 	sb.WriteString("\nparent_tags:")
 	for _, j := range s.Joins {
@@ -163,7 +174,7 @@ func takeSnap(e *h.Env) *Snap {
 			s.Parents = append(s.Parents, p)
 		}
 		rows.Close()
-		rows, err = e.SQL.Query("SELECT id,name,one_id,many_id,poly_id,poly_type FROM targets ORDER BY id")
+		rows, err = e.SQL.Query("SELECT id,name,one_id,many_id,poly_id,poly_type,solo_id,solo_type FROM targets ORDER BY id")
 		if err != nil {
 			s.Err = err.Error()
 			return
@@ -171,7 +182,7 @@ func takeSnap(e *h.Env) *Snap {
 		for rows.Next() {
 			var t TRow
 			var name sql.NullString
-			if err := rows.Scan(&t.ID, &name, &t.One, &t.Many, &t.PolyID, &t.PolyType); err != nil {
+			if err := rows.Scan(&t.ID, &name, &t.One, &t.Many, &t.PolyID, &t.PolyType, &t.SoloID, &t.SoloType); err != nil {
 				s.Err = err.Error()
 			}
 			t.Name = name.String
@@ -236,6 +247,12 @@ func storedLinks(k Kind, s *Snap) []Link {
 				out = append(out, Link{p.ID, uint(p.Owner.Int64)})
 			}
 		}
+	case PolyOne:
+		for _, t := range s.Targets {
+			if t.SoloID.Valid && t.SoloID.Int64 != 0 && t.SoloType.String == polyValue {
+				out = append(out, Link{uint(t.SoloID.Int64), t.ID})
+			}
+		}
 	case BelongsToVal:
 		for _, p := range s.Parents {
 			if p.Boss.Valid && p.Boss.Int64 != 0 {
@@ -280,6 +297,11 @@ func frame(k Kind, s *Snap) string {
 		} else if t.PolyType.String == "other" {
 			// rows of a foreign polymorphic type must keep their owner
 			fmt.Fprintf(&sb, " foreignpoly=%s/%s", ni(t.PolyID), ns(t.PolyType))
+		}
+		if k != PolyOne {
+			fmt.Fprintf(&sb, " solo=%s/%s", ni(t.SoloID), ns(t.SoloType))
+		} else if t.SoloType.String == "other" {
+			fmt.Fprintf(&sb, " foreignsolo=%s/%s", ni(t.SoloID), ns(t.SoloType))
 		}
 		sb.WriteString("; ")
 	}
